@@ -1,11 +1,52 @@
 //! Drop-in for the part of `std::io` that `stdlib::io::cgetline` uses: `io::stdin().read_line`.
-pub use std::io::{Error, ErrorKind, Result};
+pub use std::io::*;
 use crate::os::{self, err_repr, errno_error, CallResult, StdinEvent};
 
 pub struct Stdin(());
 
 pub fn stdin() -> Stdin {
     Stdin(())
+}
+
+/// `io::stdin().lock()`: a buffered reader over the same (simulated or real) line source, so that
+/// `BufRead::read_line` / `lines()` on a locked handle see the scripted stdin too.
+pub struct StdinLock {
+    buf: Vec<u8>,
+    pos: usize,
+}
+
+impl Stdin {
+    pub fn lock(&self) -> StdinLock {
+        StdinLock { buf: Vec::new(), pos: 0 }
+    }
+    pub fn lines(self) -> std::io::Lines<StdinLock> {
+        std::io::BufRead::lines(self.lock())
+    }
+}
+
+impl std::io::Read for StdinLock {
+    fn read(&mut self, out: &mut [u8]) -> Result<usize> {
+        let avail = std::io::BufRead::fill_buf(self)?;
+        let n = avail.len().min(out.len());
+        out[..n].copy_from_slice(&avail[..n]);
+        std::io::BufRead::consume(self, n);
+        Ok(n)
+    }
+}
+
+impl std::io::BufRead for StdinLock {
+    fn fill_buf(&mut self) -> Result<&[u8]> {
+        if self.pos >= self.buf.len() {
+            let mut line = String::new();
+            Stdin(()).read_line(&mut line)?;
+            self.buf = line.into_bytes();
+            self.pos = 0;
+        }
+        Ok(&self.buf[self.pos..])
+    }
+    fn consume(&mut self, n: usize) {
+        self.pos = (self.pos + n).min(self.buf.len());
+    }
 }
 
 impl Stdin {
